@@ -269,6 +269,14 @@ func (r *Run) ViolationAt(key string, from, to int, format string, a ...any) {
 	fmt.Fprintf(r.oracle, "violation key=%s line=%d from=%d %s\n", key, to, from, strings.ReplaceAll(fmt.Sprintf(format, a...), "\n", " "))
 }
 
+// Flush writes the buffered op / output / oracle lines to disk, so that what was found so far
+// survives a crash of the process under test (e.g. a panic in a goroutine of the code under test).
+func (r *Run) Flush() {
+	for _, w := range []*bufio.Writer{r.ops, r.impl, r.oracle} {
+		w.Flush()
+	}
+}
+
 // Fact records a constant read from the running code (regenerated into Lean each run).
 func (r *Run) Fact(name string, v any) { r.facts[name] = fmt.Sprint(v) }
 
